@@ -19,7 +19,7 @@ from .lang import N, P, Some, coq, freeze
 
 ROOT = os.path.dirname(os.path.dirname(os.path.abspath(__file__)))
 COQ = os.path.join(ROOT, "coq")
-GEN = os.path.join(COQ, "generated")
+from .rundir import GEN  # noqa: E402  (this run's own directory)
 
 HEADER = """From Coq Require Import ZArith List Bool.
 From KV Require Import Base.PyVal Base.Prims Model.Validator Model.Sem Corr.UserLib Corr.Canon Corr.Check.
